@@ -646,8 +646,21 @@ fn permutations(n: usize) -> Vec<Vec<usize>> {
 }
 
 fn c08_key(f: &Forest) -> &'static str {
-    // a legacy (migrating) spelling together with another spelling of the same target
     let db = rbx_reflection_database::get();
+    // a property the database does not know, given values of different types by the siblings: the column takes the type of the
+    // first value met (recorded finding `mixed-types-*`; outside "different SUBSETS of properties")
+    let mut first_ty: BTreeMap<&str, VariantType> = BTreeMap::new();
+    for n in &f.nodes {
+        for (p, v) in &n.props {
+            if rbx_binary::verif::find_property_descriptors(db, n.class.as_str().into(), p.as_str().into()).is_none() {
+                let t = first_ty.entry(p.as_str()).or_insert(v.ty());
+                if *t != v.ty() {
+                    return "mixed-types";
+                }
+            }
+        }
+    }
+    // a legacy (migrating) spelling together with another spelling of the same target
     let mut legacy = false;
     let mut other = false;
     for n in &f.nodes {
